@@ -528,4 +528,14 @@ for _f, _id in ((sib_children, "C01.SIB-children"), (pdom_sched, "C01.PDOM-sched
                 (latch, "C01.LATCH-mapref"), (depend_on_cutoff, "C01.DATA-preserve-cutoff")):
     _f.rule_id = _id
 
-RULES = [sib_children, pdom_sched, dom_stamp, latch, depend_on_cutoff]
+def dtab_mapref(ctx, prog):
+    """A map_ref node notified without an old value (its input is a map_with_old / another map_ref) must record
+    `changed`; otherwise its dependants are never scheduled (lost update). Same table as C06.DTAB-mapref."""
+    from .engine import run_relabelled
+    from .c06 import dtab_mapref as f
+    run_relabelled(ctx, prog, f, "C06.DTAB-mapref", "C01.DTAB-mapref")
+
+
+dtab_mapref.rule_id = "C01.DTAB-mapref"
+
+RULES = [sib_children, pdom_sched, dom_stamp, latch, depend_on_cutoff, dtab_mapref]
